@@ -230,6 +230,14 @@ func (c *contentValidator) ValidatePermissionChange(ch *aclrecordproto.AclAccoun
 		return ErrNoSuchAccount
 	}
 
+	if currentState.Permissions.NoPermissions() {
+		// a removed, declined or still joining account is not a member: it can only (re-)enter
+		// through an add, an accept or an invite, which also hand it the read key. Changing its
+		// permissions would admit it without a key, and would let a removed guest come back
+		// with another role in the same record that removed it
+		return ErrInsufficientPermissions
+	}
+
 	if currentState.Permissions == AclPermissionsGuest {
 		// it shouldn't be possible to change permission of guest user
 		// it should be only possible to remove it with AccountRemove acl change
